@@ -36,21 +36,27 @@ def run(ctx):
             custom = rng.choice([None, None, b'.foo', b'xz', b'z', b'.x', b'.xz', b'-s', b'.tlz', b'lz', b'.l'])
             cases.append((name, fmt, custom))
         olines = []
-        for name, fmt, custom in cases:
-            olines.append('names c %s %s %s' % (fmt, custom.hex() if custom else '-', name.hex()))
+        # every other case is given to xz through a path (sub/NAME): suffix tests look at the character before the suffix
+        def arg_of(i, name): return (b'sub/' + name) if i % 2 else name
+        for i, (name, fmt, custom) in enumerate(cases):
+            olines.append('names c %s %s %s' % (fmt, custom.hex() if custom else '-', arg_of(i, name).hex()))
         oc, _ = run_lines(orc, olines)
         for i, ((name, fmt, custom), m) in enumerate(zip(cases, oc)):
-            d = os.path.join(td, 'n%d' % i); os.mkdir(d)
+            top = os.path.join(td, 'n%d' % i); os.mkdir(top); d = top
+            if i % 2: d = os.path.join(top, 'sub'); os.mkdir(d)
             src = os.path.join(d.encode(), name)
             try:
                 open(src, 'wb').write(b'data %d' % i)
             except OSError:
                 continue
-            args = [xz, '-F', fmt] + (['-S', custom] if custom else []) + ['--', name]
-            r = subprocess.run(args, cwd=d, capture_output=True, stdin=subprocess.DEVNULL)
+            args = [xz, '-F', fmt] + (['-S', custom] if custom else []) + ['--', arg_of(i, name)]
+            r = subprocess.run(args, cwd=top, capture_output=True, stdin=subprocess.DEVNULL)
             after = set(os.listdir(d.encode()))
             n_eval += 1
             want = None if m == 'none' else bytes.fromhex(m)
+            if want is not None and i % 2:
+                if not want.startswith(b'sub/'): viol.append(dict(why='naming model moved %r out of its directory: %r' % (name, want), stderr='')); continue
+                want = want[4:]
             distinct.add((fmt, custom, want is None, r.returncode))
             if want is None:
                 if after != {name} or r.returncode != 2:
@@ -59,9 +65,10 @@ def run(ctx):
             if after != {want} or r.returncode != 0:
                 viol.append(dict(why='name %r (format %s, suffix %r): expected target %r, directory now %r, exit %d' % (name, fmt, custom, want, sorted(after), r.returncode), stderr=r.stderr.decode(errors='replace')[:200])); continue
             # and back
-            mo, _ = run_lines(orc, ['names d %s %s %s' % (fmt, custom.hex() if custom else '-', want.hex())], shards=1)
+            mo, _ = run_lines(orc, ['names d %s %s %s' % (fmt, custom.hex() if custom else '-', arg_of(i, want).hex())], shards=1)
             back = None if mo[0] == 'none' else bytes.fromhex(mo[0])
-            r2 = subprocess.run([xz, '-d', '-F', fmt] + (['-S', custom] if custom else []) + ['--', want], cwd=d, capture_output=True, stdin=subprocess.DEVNULL)
+            if back is not None and i % 2: back = back[4:]
+            r2 = subprocess.run([xz, '-d', '-F', fmt] + (['-S', custom] if custom else []) + ['--', arg_of(i, want)], cwd=top, capture_output=True, stdin=subprocess.DEVNULL)
             after2 = set(os.listdir(d.encode()))
             n_eval += 1
             if back is None:
